@@ -18,6 +18,7 @@ import inspect
 
 import c14_conn as CN
 import c14_fuzz as F
+import c14_rare as RD
 import secsm
 from common import hx
 
@@ -62,6 +63,13 @@ ASSUMPTIONS = [
     "4095 bytes needs a DTC-count draw above 1023 (probability ~1e-9 per call) - not excluded by the code, not a clause of "
     "the property (tcp-lines has no length limit)",
     "time: the clock is read exactly twice per request (start, end); ticks of 0.25 s",
+    "rare draws: the handlers' RNG is seeded by (model seed, session, request parameters), so which requests meet a rare "
+    "draw (the same DTC twice in one list ~1e-4 per request, an empty DTC list, 0 / 255 from a randint, an empty / longest "
+    "payload) is a property of the model seed; the theorems hold for every oracle (duplicate_dtc_draw_answered names the "
+    "repeated-DTC case), the tie searches such draws on every run by calling the real respond_after_default directly on "
+    "several hundred freshly built models x reachable sessions x whole parameter ranges (harness/c14_rare.py) and re-runs "
+    "every raising call and a few per corner kind as real histories; the stage-1 direct call sets session only (security "
+    "level / pending seed none), which is all stateful_rng reads",
 ]
 
 SUBFN = [0x10, 0x11, 0x19, 0x27, 0x28, 0x2C, 0x31, 0x3E, 0x85]
@@ -839,6 +847,9 @@ def _run(ctx, env, rn):
     # 0. whole connections with the real client on the other end against Model/VEcuConn.lean (first: independent of the parts below)
     run_connections(ctx, rn, reals, names)
 
+    # 0b. rare-draw search over hundreds of models (harness/c14_rare.py)
+    RD.run(ctx, rn, env, session_paths, params_json)
+
     # 1. random histories up to N requests (mixed: random bytes, sid + payload, session changes, seed/key dialogues,
     #    known services, constructor requests; idle gaps around the 10 s inactivity limit)
     n_hist = ctx.pick(5, 24)
@@ -1066,7 +1077,8 @@ MANIFEST = {
                    "(history_reply_accepted_clock); every negative response a handler can return names the request's "
                    "service, carries one of five codes, has a class in the regenerated exception map and is accepted by the "
                    "client (handler_negatives_accepted); no handler reply exceeds 4095 bytes within the stated draw bounds "
-                   "(reply_length_bounds). Handler shape (dispatch ladder, NRCs, response classes, "
+                   "(reply_length_bounds); a reportDTCByStatusMask call whose RNG draws one DTC twice is answered positively with the "
+                   "merged, pairwise distinct record list (duplicate_dtc_draw_answered). Handler shape (dispatch ladder, NRCs, response classes, "
                    "draws) regenerated from the AST of server.py on every run. Tied to the code by a correspondence run of "
                    "the real RandomUDSServer behind UDSServerTransport.handle_request / TCPUDSServerTransport.handle_client "
                    "with recorded RNG draws and the real helpers.parse_pdu on every reply, incl. all request sequences over 10 / 12 "
@@ -1097,7 +1109,9 @@ MANIFEST = {
                    "every other exception inside a handler or a response's pdu property is "
                    "excluded by the correspondence run only (random histories up to N = 200, all one- and two-byte requests, "
                    "all sub-function bytes, every request class, seed/key dialogues, every session, boundary lengths, "
-                   "handle_client on in-memory streams). Trusted: Lean kernel (propext, Quot.sound, Classical.choice), the "
+                   "handle_client on in-memory streams; rare-draw search: direct handler calls over hundreds of models x sessions x all "
+                   "256 status masks / reset types / sampled identifiers, hit table in the evidence distribution under "
+                   "rare-draw:stage1:*). Trusted: Lean kernel (propext, Quot.sound, Classical.choice), the "
                    "translators gen/c13_chain.py and gen/c14_handlers.py, the harness incl. its RNG recorder and in-memory stream pair. Modelled rather "
                    "than verified: all Python code; request parsing, response parsing and the client's matcher are the C01 / "
                    "C02 / C03 models (tied to gallia by those properties and re-checked here through the outputs); the "
